@@ -141,6 +141,8 @@ def scenarios_for(prop, tier, rng):
                 # version is published must be the one every holder and every lookup sees
                 add(el.rand_scenario(rng, n, p_edge=rng.choice([0.2, 0.35, 0.6]), lookups=2 if prop == "C01" else 0,
                                      opt=(prop == "C02"), wraps=(rng.choice([0, 0.3, 0.6]) if prop == "C01" else False), sid=sid()))
+                if prop == "C01" and rng.random() < 0.5:
+                    (big if n > 8 else small)[-1]["all"] = True       # finish with Factory.GetComponents over every pool component
         shapes = ["chain", "ring", "rings2", "diamond", "fanin", "cycletail", "dense"]
         sizes = [12, 25, 40] if not thorough else [12, 25, 40, 80, 120, 200]
         for n in sizes:
